@@ -166,6 +166,9 @@ def gen_design(rng, i: int, kind: str | None = None) -> dict | None:
                     return p, alt
         return None
     ok = False
+    between = kind == 'between_indels'
+    if between:
+        kind = rng.choice(['syn', 'aa'])
     if kind in ('syn', 'aa', 'non', 'stopstop', 'pam_on_bg'):
         x = snv_of('syn' if kind == 'pam_on_bg' else kind)
         if x:
@@ -319,7 +322,25 @@ def gen_design(rng, i: int, kind: str | None = None) -> dict | None:
             alts = [a for a in 'ACGT' if a != U[p - 1] and tb.tr[''.join(comp(a) if q == p else comp(U[q - 1]) for q in cp)] == tb.tr[c1] != 'STOP']
             if alts and add({'pos': p, 'ref': U[p - 1], 'alts': [rng.choice(alts)]}, [p]):
                 break
+    if between:
+        study = recs[0]['pos']
+        # force an unrelated non-coding indel on each side of the variant under study
+        for side in (-1, 1):
+            for _ in range(60):
+                p = rng.randint(lo, study - 8) if side < 0 else rng.randint(study + 8, hi)
+                ln = rng.randint(1, 4)
+                span = list(range(p, p + ln + 2))
+                if p < 4 or any(inex(q) for q in range(p - 2, p + ln + 3)) or set(span) & (bounds | pam_pos):
+                    continue
+                if add({'pos': p, 'ref': U[p - 1:p + ln], 'alts': [U[p - 1]]}, span) if rng.random() < 0.5 else add({'pos': p, 'ref': U[p - 1], 'alts': [U[p - 1] + gen.rand_dna(rng, ln)]}, [p, p + 1]):
+                    break
+        shifting = [r for r in recs[1:] if len(r['ref']) != len(r['alts'][0])]
+        if not (any(r['pos'] < study for r in shifting) and any(r['pos'] > study for r in shifting)):
+            return None
+        d['c15_kind'] = 'between_indels'
     recs.sort(key=lambda r: r['pos'])
+    if between:
+        recs.reverse()
     ends = {x for t in d['targetons'] for x in (t['ref_start'], t['ref_end'], t['r2_start'], t['r2_end'])}
     if any(set(range(r['pos'] + 1, r['pos'] + len(r['ref']))) & ends for r in recs):
         return None      # a deleted targeton/region end: the targeton does not exist in the background genome (not C15's subject)
@@ -599,6 +620,8 @@ def run(ctx: Ctx):
     import random
     explore(ctx, 'del_by_pam', ctx.n(24, 240), random.Random(f'C15-del-by-pam-{ctx.seed}'))
     explore(ctx, 'padded_syn', ctx.n(24, 240), random.Random(f'C15-padded-syn-{ctx.seed}'))
+    # a coding substitution between two unrelated indels, the records listed in descending order (own generator state)
+    explore(ctx, 'between_indels', ctx.n(16, 160), random.Random(f'C15-between-indels-{ctx.seed}'))
     return {'rule': 'Random SGE designs with one background variant under study starting inside a targeton (synonymous / missense / '
                     'nonsense / stop-to-stop SNV, coding MNV, in-frame and frame-shifting coding indel, deletion reaching from an intron into '
                     'an exon, non-coding SNV/indel, PAM edit on a background-altered coding base) plus 0-3 unrelated non-coding indels of 1-7 '
